@@ -2,11 +2,12 @@
 // every case is concretised over the harmless probe syscalls of x86_64,
 // installed in a fresh child process through the real LoadFilter, and the
 // child then issues raw probe syscalls with arbitrary 64-bit register values.
-// Expected observations come from the specification's Decide:
+// Expected observations come from the specification's Decide and KernelObserves (exported in the case file's header):
 //
-//	allow / log        -> the probe's own result (ENOSYS)
-//	errno              -> EPERM
-//	kill_process, trap -> the child dies by SIGSYS at that probe
+//	errno:N      the probe returns errno N (allow / log / trace / user_notif: the probe's own result, ENOSYS; errno: EPERM or its data bits)
+//	killed       the child is killed by SIGSYS at that probe (kill_process, values the kernel has no case for)
+//	sigsys       SIGSYS is delivered to the thread (trap): the Go runtime of the child reports it and exits with status 2
+//	thread-gone  the probing thread ends at that probe, the process lives on (kill_thread): seen by the parent in /proc
 //
 // Hook H2 captures the sock_filter program and the flags word at the moment
 // of installation; they must equal, instruction for instruction and in
@@ -28,6 +29,7 @@ import (
 	"os/exec"
 	"runtime"
 	"strconv"
+	"strings"
 	"sync"
 	"syscall"
 	"time"
@@ -46,7 +48,7 @@ import (
 type probeJob struct {
 	Nr       uint32    `json:"nr"`
 	Args     [6]uint64 `json:"args"`
-	Expect   string    `json:"expect"` // allow | errno | fatal
+	Expect   string    `json:"expect"` // Compile!KernelObserves: errno:N | killed | sigsys | thread-gone
 	Abstract string    `json:"abstract"`
 	Decision string    `json:"decision"`
 }
@@ -186,8 +188,10 @@ func child() {
 	}
 	w[1] = 1
 	w[0] = 2
+	w[6] = uint32(syscall.Gettid())
 	for i := range probes {
 		p := &probes[i]
+		w[7] = uint32(i + 1)
 		_, _, e := syscall.RawSyscall6(uintptr(p.Nr), uintptr(p.Args[0]), uintptr(p.Args[1]), uintptr(p.Args[2]), uintptr(p.Args[3]), uintptr(p.Args[4]), uintptr(p.Args[5]))
 		w[16+i] = 0x10000 | uint32(e)
 	}
@@ -213,14 +217,15 @@ type failure struct {
 }
 
 type summary struct {
-	Scope      string         `json:"scope"`
-	Cases      int            `json:"cases"`
-	Children   int            `json:"children"`
-	Probes     int            `json:"probes"`
-	NonTrivial int            `json:"distinct_nontrivial"`
-	Fatal      int            `json:"fatal_probes"`
-	Failures   map[string]int `json:"failures"`
-	Skipped    int            `json:"skipped_children"`
+	Scope        string         `json:"scope"`
+	Cases        int            `json:"cases"`
+	Children     int            `json:"children"`
+	Probes       int            `json:"probes"`
+	NonTrivial   int            `json:"distinct_nontrivial"`
+	Fatal        int            `json:"fatal_probes"`
+	FatalByClass map[string]int `json:"fatal_probes_by_class"`
+	Failures     map[string]int `json:"failures"`
+	Skipped      int            `json:"skipped_children"`
 	// children with a restrictive default action that died before answering all probes (inconclusive, see job.Restrictive)
 	Inconclusive  int           `json:"inconclusive_children"`
 	FailedLoads   int           `json:"failed_loads_not_judged"`
@@ -230,6 +235,7 @@ type summary struct {
 }
 
 type outcome struct {
+	gone                                    int // 1 + index of the probe at which the probing thread ended while the process lived on
 	stage, load, hflags, hlen, same, ownlen uint32
 	slots                                   []uint32
 	sig                                     syscall.Signal
@@ -295,6 +301,33 @@ func runChild(self string, j *job, uid int) (*outcome, error) {
 			return o, nil
 		case <-tick.C:
 			read()
+			f.ReadAt(mem, 0)
+			tid, at := int(binary.LittleEndian.Uint32(mem[4*6:])), int(binary.LittleEndian.Uint32(mem[4*7:]))
+			if o.stage == 2 && at >= 1 && at <= len(o.slots) && o.slots[at-1] == 0 && threadEnded(cmd.Process.Pid, tid) {
+				// the probing thread has ended in the middle of probe `at`. Either the whole process is going down (then Wait
+				// returns at once) or only that thread was ended and the process lives on
+				select {
+				case err := <-done:
+					read()
+					if ee, ok := err.(*exec.ExitError); ok {
+						ws := ee.Sys().(syscall.WaitStatus)
+						if ws.Signaled() {
+							o.sig = ws.Signal()
+						} else {
+							o.exit = ws.ExitStatus()
+						}
+					}
+				case <-time.After(150 * time.Millisecond):
+					if othersAlive(cmd.Process.Pid, tid) {
+						o.gone = at
+					}
+					cmd.Process.Kill()
+					<-done
+					read()
+				}
+				o.stderr = errb.String()
+				return o, nil
+			}
 			if o.stage == 3 {
 				// all probes answered: the child may be unable to exit under its own filter
 				select {
@@ -315,6 +348,42 @@ func runChild(self string, j *job, uid int) (*outcome, error) {
 			return o, nil
 		}
 	}
+}
+
+// taskState is the state letter of thread tid of process pid ("" when there is no such thread any more).
+func taskState(pid, tid int) string {
+	b, err := os.ReadFile(fmt.Sprintf("/proc/%d/task/%d/stat", pid, tid))
+	if err != nil {
+		return ""
+	}
+	// pid (comm) S ...: the state follows the last ')'
+	for i := len(b) - 1; i >= 0; i-- {
+		if b[i] == ')' && i+2 < len(b) {
+			return string(b[i+2 : i+3])
+		}
+	}
+	return "?"
+}
+
+// threadEnded: the thread is gone, or (the thread-group leader) stays behind as a zombie.
+func threadEnded(pid, tid int) bool {
+	st := taskState(pid, tid)
+	return tid != 0 && (st == "" || st == "Z" || st == "X")
+}
+
+// othersAlive: the process still has a thread other than tid that has not ended.
+func othersAlive(pid, tid int) bool {
+	ents, err := os.ReadDir(fmt.Sprintf("/proc/%d/task", pid))
+	if err != nil {
+		return false
+	}
+	for _, e := range ents {
+		t, _ := strconv.Atoi(e.Name())
+		if t != tid && !threadEnded(pid, t) {
+			return true
+		}
+	}
+	return false
 }
 
 type limitedBuf struct {
@@ -374,17 +443,14 @@ func polJSON(p *seccomp.Policy) json.RawMessage {
 	return b
 }
 
+// observes is Compile!KernelObserves as exported with the cases.
+var observes map[string]string
+
 func expectOf(decision string) string {
-	switch decision {
-	case "allow", "log":
-		return "allow"
-	case "errno|EPERM":
-		return "errno"
-	case "kill_process", "trap":
-		return "fatal"
-	}
-	return "" // not observable natively (x32, trace, kill_thread, user_notif, ...)
+	return observes[decision] // "" = not in the table: not judged
 }
+
+func fatalClass(exp string) bool { return exp == "killed" || exp == "sigsys" || exp == "thread-gone" }
 
 var (
 	mu       sync.Mutex
@@ -454,23 +520,35 @@ func judgeChild(base failure, j *job, o *outcome, fatalIdx int) {
 		default:
 			obs = "errno " + strconv.Itoa(int(slot&0xffff))
 		}
+		if slot == 0 && o.gone == i+1 {
+			obs = "the probing thread ended, the process lived on"
+		}
 		ok := false
-		switch p.Expect {
-		case "allow":
-			ok = slot == 0x10000|uint32(syscall.ENOSYS)
-		case "errno":
-			ok = slot == 0x10000|uint32(syscall.EPERM)
-		case "fatal":
-			// SIGSYS kills the process (kill_process) or is delivered and crashes the Go runtime (trap)
-			ok = slot == 0 && (o.sig == syscall.SIGSYS || o.exit == 2)
+		switch {
+		case strings.HasPrefix(p.Expect, "errno:"):
+			n, _ := strconv.Atoi(p.Expect[len("errno:"):])
+			ok = slot == 0x10000|uint32(n)
+		case p.Expect == "killed":
+			// SIGSYS ends the whole process
+			ok = slot == 0 && o.sig == syscall.SIGSYS && o.gone == 0
+		case p.Expect == "sigsys":
+			// SIGSYS is delivered to the thread: the Go runtime has no handler for it, reports it and exits with status 2
+			// (under a restrictive default action the runtime's own report may be cut short: any end of the process counts)
+			ok = slot == 0 && o.gone == 0 && (o.exit == 2 || (j.Restrictive && (o.sig != 0 || o.exit != 0)))
+		case p.Expect == "thread-gone":
+			ok = slot == 0 && o.gone == i+1
 		}
 		mu.Lock()
 		sum.Probes++
-		if p.Expect == "fatal" {
+		if fatalClass(p.Expect) {
 			sum.Fatal++
+			if sum.FatalByClass == nil {
+				sum.FatalByClass = map[string]int{}
+			}
+			sum.FatalByClass[p.Expect]++
 		}
 		mu.Unlock()
-		if !ok && j.Restrictive && slot == 0 && !(p.Expect == "fatal" && o.stage == 3) {
+		if !ok && j.Restrictive && slot == 0 && o.gone == 0 && !(fatalClass(p.Expect) && o.stage == 3) {
 			// the process went down before this probe was answered: its own runtime was denied a system call
 			mu.Lock()
 			sum.Inconclusive++
@@ -485,7 +563,7 @@ func judgeChild(base failure, j *job, o *outcome, fatalIdx int) {
 			fail(f)
 			return
 		}
-		if p.Expect == "fatal" {
+		if fatalClass(p.Expect) {
 			break
 		}
 	}
@@ -542,6 +620,11 @@ func main() {
 					fmt.Fprintln(os.Stderr, err)
 					os.Exit(2)
 				}
+			}
+			observes = h.Observes
+			if len(observes) == 0 {
+				fmt.Fprintln(os.Stderr, "the case file's header carries no table of observations (Compile!KernelObserves)")
+				os.Exit(2)
 			}
 			continue
 		}
@@ -641,7 +724,7 @@ func main() {
 				}
 			}
 			pjb := probeJob{Nr: nr, Args: args, Expect: exp, Decision: cs.Ideal[ei], Abstract: fmt.Sprintf("nr=%d args=%v", ev.Nr, ev.Args)}
-			if exp == "fatal" {
+			if fatalClass(exp) {
 				fatals = append(fatals, pjb)
 			} else {
 				plain = append(plain, pjb)
